@@ -691,7 +691,7 @@ def _case_from_public(d):
 
 
 def replay(ctx, doc):
-    if doc["failure"]["input"].get("kind") in ("scripted-login", "encoding-mismatch", "limit-refusal", "user-manager-under-with_timeout", "late-reply", "sessions-of-one-account", "unencodable-password"):
+    if doc["failure"]["input"].get("kind") in ("scripted-login", "encoding-mismatch", "limit-refusal", "user-manager-under-with_timeout", "late-reply", "sessions-of-one-account", "unencodable-password", "long-pass-line-in-pieces"):
         from props import c20_extra
 
         r = c20_extra.run(ctx)
